@@ -143,6 +143,9 @@ def run_property(modname, tier, seed, replay=None):
     proof_break = None
     ev = dict(property_id=pid, tier=tier, seed=seed, level=level)
     cov = dict()
+    if not replay:  # replay files of earlier runs of this property are stale now
+        import shutil
+        shutil.rmtree(os.path.join(VERIF, "replays", pid), ignore_errors=True)
 
     # ---- 1/2/3: facts, proofs, extraction ----
     facts_info = None
@@ -172,8 +175,9 @@ def run_property(modname, tier, seed, replay=None):
     stats = {}
     pool = None
     if any(s.parallel for s in streams) and not replay:
-        ctx = mp.get_context("fork")
-        pool = ctx.Pool(NCPU, initializer=_worker_init, initargs=(modname, tier))
+        # non-daemonic workers (a case may start child processes: managers, process pools)
+        from concurrent.futures import ProcessPoolExecutor
+        pool = ProcessPoolExecutor(NCPU, mp_context=mp.get_context("fork"), initializer=_worker_init, initargs=(modname, tier))
     samples = []
     try:
         for s in streams:
@@ -187,7 +191,7 @@ def run_property(modname, tier, seed, replay=None):
                 cases = load_corpus(pid, s.name) + list(s.gen(rng, tier))
             seen, nt_seen = set(), set()
             if pool is not None and s.parallel and len(cases) > 1:
-                results = pool.imap(_worker, [(s.name, c) for c in cases], chunksize=max(1, min(64, len(cases) // (NCPU * 4) or 1)))
+                results = pool.map(_worker, [(s.name, c) for c in cases], chunksize=max(1, min(64, len(cases) // (NCPU * 4) or 1)))
             else:
                 results = (run_case(s, c) for c in cases)
             fails = {}
@@ -211,6 +215,7 @@ def run_property(modname, tier, seed, replay=None):
             st["distinct"], st["nontrivial"] = len(seen), len(nt_seen)
             st["wall_s"] = round(time.time() - ts, 2)
             # ---- verdict per distinct failure signature ----
+            reported = set()
             for sigk, (c, r) in fails.items():
                 kf = findings.match(pid, r["sig"])
                 if kf is not None:
@@ -221,6 +226,10 @@ def run_property(modname, tier, seed, replay=None):
                 if kf is not None:
                     known_hits[kf["id"]] = kf
                     continue
+                k2 = json.dumps(r2["sig"], sort_keys=True, default=str)
+                if k2 in reported:
+                    continue
+                reported.add(k2)
                 if r2["kind"] == "oracle":
                     path = write_replay(pid, s.name, c2, r2)
                     violations.append(dict(stream=s.name, clause=r2["clause"], replay=path, found_input=True))
@@ -240,8 +249,7 @@ def run_property(modname, tier, seed, replay=None):
                         violations.append(dict(stream=s.name, clause=r2["clause"], replay=path, found_input=False))
     finally:
         if pool is not None:
-            pool.terminate()
-            pool.join()
+            pool.shutdown(wait=True, cancel_futures=True)
 
     if proof_break and not any(v["found_input"] for v in violations):
         tgt = proof_break.get("target") or proof_break["stage"]
